@@ -676,6 +676,24 @@ func (a *Authenticator) handleSessionResumption(ctx context.Context, sessionID s
 			}
 		}
 	}
+	// The wire command is always DC_AUTHENTICATE; the command actually being
+	// invoked over the resumed session is carried in the client's ad.
+	resumedCommand := command
+	if c, okc := clientAd.EvaluateAttrInt("Command"); okc {
+		resumedCommand = int(c)
+	}
+
+	// A cached session is only resumable if it can do what resumption promises:
+	// protect the connection with its key from the reply onwards, and meet the
+	// policy that applies to the command now. Anything else is answered exactly
+	// like an unknown session, so the client falls back to a full handshake.
+	if ok {
+		if why := a.resumeRefusal(entry, resumedCommand); why != "" {
+			slog.Info(fmt.Sprintf("🔐 SERVER: Session %s cannot be resumed: %s", redactSessionID(sessionID), why), "destination", "cedar")
+			ok = false
+		}
+	}
+
 	if !ok {
 		slog.Info(fmt.Sprintf("🔐 SERVER: Session %s not found or expired", redactSessionID(sessionID)), "destination", "cedar")
 
@@ -733,15 +751,10 @@ func (a *Authenticator) handleSessionResumption(ctx context.Context, sessionID s
 		slog.Info("🔐 SERVER: Sent session resumption success response", "destination", "cedar")
 	}
 
-	// The wire command is always DC_AUTHENTICATE; the command actually being
-	// invoked over the resumed session is carried in the client's ad (see the
-	// client resume path, which sets "Command"). Extract it and expose it via
-	// ClientConfig so a dispatching server can route the resumed command instead
-	// of seeing command 0 and dropping the connection.
-	resumedCommand := command
-	if c, ok := clientAd.EvaluateAttrInt("Command"); ok {
-		resumedCommand = int(c)
-	}
+	// resumedCommand (extracted above from the client's ad, see the client resume
+	// path, which sets "Command") is exposed via ClientConfig so a dispatching
+	// server can route the resumed command instead of seeing command 0 and
+	// dropping the connection.
 
 	// Create negotiation result from cached session
 	negotiation := &SecurityNegotiation{
@@ -791,6 +804,40 @@ func (a *Authenticator) handleSessionResumption(ctx context.Context, sessionID s
 	slog.Info(fmt.Sprintf("🔐 SERVER: Successfully resumed session %s", redactSessionID(sessionID)), "destination", "cedar")
 
 	return negotiation, nil
+}
+
+// sessionKeyUsable reports whether a cached session carries a key cedar can
+// protect a stream with (AES-256-GCM).
+func sessionKeyUsable(entry *SessionEntry) bool {
+	ki := entry.KeyInfo()
+	return ki != nil && len(ki.Data) == 32 && isAESGCM(CryptoMethod(ki.Protocol))
+}
+
+// sessionAuthenticated reports whether a cached session records a completed authentication.
+func sessionAuthenticated(entry *SessionEntry) bool {
+	if entry.Policy() == nil {
+		return false
+	}
+	authed, ok := entry.Policy().EvaluateAttrBool("Authenticated")
+	return ok && authed
+}
+
+// resumeRefusal explains why the server will not resume entry for command, or
+// returns "" if it may. The policy consulted is the one for that command.
+func (a *Authenticator) resumeRefusal(entry *SessionEntry, command int) string {
+	if !sessionKeyUsable(entry) {
+		return "session carries no usable key"
+	}
+	policy := a.config
+	if a.ServerConfigForCommand != nil {
+		if perCmd := a.ServerConfigForCommand(command); perCmd != nil {
+			policy = perCmd
+		}
+	}
+	if policy != nil && policy.Authentication == SecurityRequired && !sessionAuthenticated(entry) {
+		return "session is not authenticated but authentication is required"
+	}
+	return ""
 }
 
 // ServerHandshake performs the server-side security handshake
